@@ -61,6 +61,8 @@ pub trait Zk: Sync {
     // JSON codecs: octets -> json ; json -> octets
     fn json_of(&self, kind: Kind, b: &[u8]) -> O<String>;
     fn octets_of_json(&self, kind: Kind, j: &str) -> O<Vec<u8>>;
+    /// the public helper prepare_parameters: returns (message scalars, generator list)
+    fn prepare_parameters(&self, msgs: Msgs, cmsgs: Msgs, ng: usize, nbg: usize, blind: Option<&[u8; 32]>, api_id: Hdr) -> O<(Vec<[u8; 32]>, Vec<[u8; 48]>)>;
     fn random_blind_factor(&self) -> O<[u8; 32]>;
     fn random_secret(&self, n: usize) -> O<Vec<u8>>;
 }
@@ -301,6 +303,14 @@ where
                 Kind::Proof => serde_json::from_str::<PoKSignature<BBSplus<CS>>>(j).map_err(e)?.to_bytes(),
                 Kind::Commitment => serde_json::from_str::<Commitment<BBSplus<CS>>>(j).map_err(e)?.to_bytes(),
             })
+        })
+    }
+    fn prepare_parameters(&self, msgs: Msgs, cmsgs: Msgs, ng: usize, nbg: usize, blind: Option<&[u8; 32]>, api_id: Hdr) -> O<(Vec<[u8; 32]>, Vec<[u8; 48]>)> {
+        guard(|| {
+            use group::Curve;
+            let b = bf(blind)?;
+            let (m, g) = zkryptium::bbsplus::blind::prepare_parameters::<CS>(msgs, cmsgs, ng, nbg, b.as_ref(), api_id)?;
+            Ok::<_, Error>((m.iter().map(|x| x.to_bytes_be()).collect(), g.values.iter().map(|p| p.to_affine().to_compressed()).collect()))
         })
     }
     fn random_blind_factor(&self) -> O<[u8; 32]> {
